@@ -463,6 +463,16 @@ def compare_recv(run_outs, ans_outs, ex):
     return None
 
 
+def drop_loggers(node):
+    """the `logging` module keeps every logger ever made, and `Logger.setLevel` walks over all of them: forget the
+    loggers of a node that is thrown away (otherwise a run is quadratic in the number of cases)"""
+    import logging
+    d = logging.Logger.manager.loggerDict
+    prefix = node.root.name
+    for name in [n for n in d if n == prefix or n.startswith(prefix + '.')]:
+        del d[name]
+
+
 def prepare(case, errs):
     """ids, oracle tables and the initial entries of a freshly built node (the node is thrown away)"""
     clock = Clock(T0)
@@ -477,6 +487,7 @@ def prepare(case, errs):
         ids.vid(pid, m.parameters[PNAMES[pid]].value)
     for e in errs:
         ids.eid(e)
+    drop_loggers(node)
     return ids, conv, valid
 
 
@@ -532,6 +543,8 @@ def impl_seq(case, errs, tables):
                 'real_window': real_window, 'steps': steps}
     finally:
         mb.time = saved
+        if 'node' in locals():
+            drop_loggers(node)
 
 
 def ex_ve(ex, ve):
@@ -742,6 +755,8 @@ def impl_conc(case, errs, tables, policy):
         return req, obs, s
     finally:
         mb.time = saved
+        if 'node' in locals():
+            drop_loggers(node)
 
 
 def compare_conc(obs, ans):
@@ -954,6 +969,8 @@ def impl_builtin(case):
         return {'init_x': init_x, 'outs': outs}
     finally:
         mb.time = saved
+        if 'node' in locals():
+            drop_loggers(node)
         shutil.rmtree(tmp, ignore_errors=True)
 
 
@@ -1206,6 +1223,8 @@ def impl_follow(case, errs, tables):
                 'steps': steps}
     finally:
         mb.time = saved
+        if 'node' in locals():
+            drop_loggers(node)
 
 
 def compare_follow(run, ans):
@@ -1287,7 +1306,7 @@ def run(ctx):
         for fn in sorted(os.listdir(cdir)):
             c = json.load(open(os.path.join(cdir, fn)))
             {'seq': seq_cases, 'conc': conc_corpus, 'builtin': builtin_corpus, 'follow': follow_corpus}[c['kind']].append(c['case'])
-    for _ in range(ctx.budget(2000, 10000)):
+    for _ in range(ctx.budget(3000, 20000)):
         seq_cases.append(gen_seq(rng, big))
     shrunk = 0
     CH = 1000
@@ -1351,7 +1370,7 @@ def run(ctx):
 
     # ---------------- followers attached with registerCallbacks; explicit time stamps ----------------
     fcases = list(follow_corpus)
-    for _ in range(ctx.budget(600, 6000)):
+    for _ in range(ctx.budget(1000, 10000)):
         fcases.append(gen_follow(rng, big))
     for start in range(0, len(fcases), CH):
         chunk = fcases[start:start + CH]
@@ -1423,13 +1442,13 @@ def run(ctx):
                                            f'"{jd["bad"][1]}" with ops={small["ops"]} (general window {case["gw"]} s)'})
 
     # ---------------- concurrent ----------------
-    n_sched = ctx.budget(300, 2000)
+    n_sched = ctx.budget(600, 5000)
     conc_cases = list(conc_corpus)
     ncases = max(6, n_sched // 25)
     for _ in range(ncases):
         conc_cases.append(gen_conc(rng, big))
     per_case = max(4, n_sched // max(1, len(conc_cases)))
-    for _ in range(ctx.budget(20, 150)):
+    for _ in range(ctx.budget(40, 400)):
         conc_cases.append(gen_kernel(rng))
     reqs, meta = [], []
     for case in conc_cases:
